@@ -20,6 +20,13 @@
 //	cancel <qid>                                -> - pend{..}
 //	expire <ty> <slot> <0|1>                    deadliner: duty expired (1: also queued on C()) -> -
 //	pubkey <slot> <comm> <val>                  -> found:k(<pk>) | notfound
+//	race <sub> ; <sub> [; <sub>] => <observed>  the sub-operations (store / await (at most one) / cancel / pubkey, same syntax)
+//	                                            are called from goroutines released together by a start barrier. <observed> is
+//	                                            written by this driver after all calls returned: one result per sub-operation
+//	                                            (ok|err:class, q<id>, -, found:..|notfound), then r[..] (all queries answered
+//	                                            during the race) and the final snapshot. The model accepts the line iff some
+//	                                            sequential order of the atomic sub-operations yields exactly <observed>
+//	    -> lin <observed>                       (model: "nolin ..." when no linearisation exists)
 //
 // ty: att pro agg con bld oth. entry tokens:
 //
@@ -39,6 +46,7 @@ import (
 	"sort"
 	"strconv"
 	"strings"
+	"sync"
 	"time"
 
 	"github.com/OffchainLabs/go-bitfield"
@@ -60,6 +68,7 @@ import (
 // ---------------------------------------------------------------- scripted deadliner
 
 type scriptDL struct {
+	mu      sync.Mutex // racing Stores call Add concurrently when the code under test (a mutant) drops db.mu
 	expired map[core.Duty]bool
 	exempt  bool // answer of the next Add
 	ch      chan core.Duty
@@ -68,6 +77,8 @@ type scriptDL struct {
 }
 
 func (d *scriptDL) Add(duty core.Duty) core.DeadlineStatus {
+	d.mu.Lock()
+	defer d.mu.Unlock()
 	d.adds++
 	switch {
 	case d.exempt:
@@ -412,6 +423,7 @@ type episode struct {
 	foreign map[string]bool   // key was deleted while its own duty had not expired (through another slot's index)
 	writer  map[string]string // duty ("att/7") of the Store that inserted the key's current value
 	seen    map[string]map[string]bool
+	queued  []core.Duty // expiries sent on C() and not yet consumed by a Store
 }
 
 var dutyTypes = map[string]core.DutyType{"att": core.DutyAttester, "pro": core.DutyProposer, "agg": core.DutyAggregator,
@@ -728,6 +740,7 @@ func (e *episode) doStore(run *hx.Run, ty string, slot uint64, st string, entrie
 	post := snapKV(s)
 	res := errClass(err)
 	dstr := fmt.Sprintf("%s/%d", ty, slot)
+	e.queued = e.queued[len(e.queued)-len(e.dl.ch):]
 
 	// values supplied by this call, per key (for the only-stored-data monitor)
 	extra := map[string]map[string]bool{}
@@ -886,7 +899,8 @@ func proRootOf(val string) string {
 	return fmt.Sprintf("root%d", r)
 }
 
-func (e *episode) doAwait(run *hx.Run, f []string) string {
+// mkQuery builds the query object and the real Await* call for "await <kind> <key fields>".
+func (e *episode) mkQuery(f []string) (*query, func() (string, error)) {
 	id := len(e.queries)
 	ctx, cancel := context.WithCancel(context.Background())
 	q := &query{id: id, cancel: cancel, ch: make(chan qres, 1)}
@@ -937,6 +951,12 @@ func (e *episode) doAwait(run *hx.Run, f []string) string {
 	default:
 		panic("bad await kind")
 	}
+	return q, call
+}
+
+func (e *episode) doAwait(run *hx.Run, f []string) string {
+	q, call := e.mkQuery(f)
+	id := q.id
 	c0 := countPending(e.db.VerifSnapshot(), q.kind, q.hk)
 	go func() {
 		v, err := call()
@@ -1007,9 +1027,12 @@ func (e *episode) doCancel(run *hx.Run, id int) string {
 
 func (e *episode) doExpire(run *hx.Run, ty string, slot uint64, notify bool) string {
 	d := core.Duty{Slot: slot, Type: dutyTypes[ty]}
+	e.dl.mu.Lock()
 	e.dl.expired[d] = true
+	e.dl.mu.Unlock()
 	if notify {
 		e.dl.ch <- d
+		e.queued = append(e.queued, d)
 	}
 	run.Count("expire:" + ty)
 	return "-"
@@ -1028,6 +1051,693 @@ func (e *episode) doPubkey(run *hx.Run, slot, comm, val uint64) string {
 	e.recordAnswer(run, fmt.Sprintf("K%d.%d.%d", slot, comm, val), v, nil)
 	run.Count("pubkey:found")
 	return "found:" + v
+}
+
+// ---------------------------------------------------------------- racing operations
+
+// rsub is one sub-operation of a race.
+type rsub struct {
+	kind string // store await cancel pubkey
+	f    []string
+	// store
+	ty       string
+	slot     uint64
+	entries  []entry
+	set      core.UnsignedDataSet
+	log      []int
+	live     map[int]bool
+	ordered  []entry
+	nVisited int
+	err      error
+	dstr     string
+	supplied map[string]map[string]bool // key -> values the visited entries supply
+	// await
+	q    *query
+	call func() (string, error)
+	// cancel
+	cq   *query
+	cres qres
+	// pubkey
+	pk    core.PubKey
+	pkErr error
+	done  chan struct{}
+	res   string
+}
+
+func buildSet(entries []entry, log *[]int) (core.UnsignedDataSet, map[int]bool) {
+	set := core.UnsignedDataSet{}
+	byPk := map[core.PubKey]int{}
+	for i, en := range entries {
+		pk, ud, isAtt := en.build()
+		if !isAtt {
+			pk = corePk(1000 + uint64(i))
+		}
+		set[pk] = spy{ud, i, log}
+		byPk[pk] = i
+	}
+	live := map[int]bool{}
+	for _, i := range byPk {
+		live[i] = true
+	}
+	return set, live
+}
+
+func orderEntries(entries []entry, log []int, live map[int]bool) ([]entry, int) {
+	var ordered []entry
+	visited := map[int]bool{}
+	for _, i := range log {
+		if !visited[i] {
+			visited[i] = true
+			ordered = append(ordered, entries[i])
+		}
+	}
+	n := len(ordered)
+	for i, en := range entries {
+		if live[i] && !visited[i] {
+			ordered = append(ordered, en)
+		}
+	}
+	return ordered, n
+}
+
+// conflictFree replays the property's reading of "conflict" over the given successful stores in the
+// given order (first value per key wins, starting from the maps before the race).
+func conflictFree(pre map[string]string, order []*rsub, skip func(string) bool) (bool, string) {
+	tmp := map[string]kvw{}
+	cur := func(key string) (kvw, bool) {
+		if w, ok := tmp[key]; ok {
+			return w, true
+		}
+		v, ok := pre[key]
+		if !ok {
+			return kvw{}, false
+		}
+		w := kvw{key: key, val: v, ident: v}
+		if key[0] == 'P' {
+			w.ident = proRootOf(v)
+		}
+		var a, b, c uint64
+		_, _ = fmt.Sscanf(v, "a(%d.%d.%d.%d.%d)", &a, &b, &c, &w.src, &w.tgt)
+		return w, true
+	}
+	for _, sb := range order {
+		for _, en := range sb.ordered {
+			for _, w := range en.writes() {
+				old, ok := cur(w.key)
+				if !ok {
+					tmp[w.key] = w
+					continue
+				}
+				conflict := false
+				switch {
+				case w.ident == "":
+				case w.weak:
+					conflict = old.src != w.src || old.tgt != w.tgt
+				default:
+					conflict = old.ident != w.ident
+				}
+				if conflict && !skip(w.key) {
+					return false, fmt.Sprintf("Store %s: %s=%s conflicts with %s", sb.dstr, w.key, w.val, old.val)
+				}
+			}
+		}
+	}
+	return true, ""
+}
+
+func permsOf(xs []*rsub) [][]*rsub {
+	if len(xs) <= 1 {
+		return [][]*rsub{append([]*rsub(nil), xs...)}
+	}
+	var out [][]*rsub
+	for i := range xs {
+		rest := append(append([]*rsub(nil), xs[:i]...), xs[i+1:]...)
+		for _, p := range permsOf(rest) {
+			out = append(out, append([]*rsub{xs[i]}, p...))
+		}
+	}
+	return out
+}
+
+// collectRace: like collect, but a key's queries may be answered in part (old ones answered by a racing
+// Store whose expiry loop then deleted the key, a new one registered afterwards).
+func (e *episode) collectRace(run *hx.Run, s dutydb.VerifSnap, record func(key, val string)) []string {
+	groups := map[string][]*query{}
+	var keys []string
+	for _, q := range e.queries {
+		if q.state == 0 {
+			k := string(q.kind) + q.key
+			if groups[k] == nil {
+				keys = append(keys, k)
+			}
+			groups[k] = append(groups[k], q)
+		}
+	}
+	var out []string
+	for _, k := range keys {
+		qs := groups[k]
+		cnt := countPending(s, qs[0].kind, qs[0].hk)
+		need := len(qs) - cnt // so many must have been answered
+		if need < 0 {
+			run.Violate("dutydb:pending_mismatch", fmt.Sprintf("key %s: store lists %d uncancelled queries, harness has %d blocked", qs[0].key, cnt, len(qs)))
+			continue
+		}
+		deadline := time.Now().Add(waitMax)
+		for {
+			got := 0
+			for _, q := range qs {
+				got += len(q.ch)
+			}
+			if got >= need {
+				if got > need {
+					run.Violate("dutydb:answered_but_pending", fmt.Sprintf("key %s: %d queries returned but the store still lists %d of %d", qs[0].key, got, cnt, len(qs)))
+				}
+				break
+			}
+			if time.Now().After(deadline) {
+				run.Violate("dutydb:query_lost", fmt.Sprintf("key %s: %d queries left the pending slice, only %d returned", qs[0].key, need, got))
+				break
+			}
+			time.Sleep(20 * time.Microsecond)
+		}
+		for _, q := range qs {
+			select {
+			case r := <-q.ch:
+				if r.err != nil {
+					q.state = 3
+					run.Violate("dutydb:query_error", fmt.Sprintf("query q%d on %s returned error %v", q.id, q.key, r.err))
+					continue
+				}
+				q.state = 1
+				record(q.key, r.val)
+				out = append(out, fmt.Sprintf("%09d q%d=%s", q.id, q.id, r.val))
+			default:
+			}
+		}
+	}
+	return out
+}
+
+// doRace runs the sub-operations concurrently on the real MemDB and returns the op line (with the
+// observed outcome) and the output.
+func (e *episode) doRace(run *hx.Run, f []string) (string, string) {
+	// split "race a ; b ; c [=> ...]"
+	var subs []*rsub
+	cur := []string{}
+	flush := func() {
+		if len(cur) > 0 {
+			subs = append(subs, &rsub{kind: cur[0], f: cur, done: make(chan struct{})})
+		}
+		cur = []string{}
+	}
+	for _, t := range f[1:] {
+		if t == "=>" {
+			break
+		}
+		if t == ";" {
+			flush()
+			continue
+		}
+		cur = append(cur, t)
+	}
+	flush()
+	if len(subs) < 1 || len(subs) > 3 {
+		panic("bad race op")
+	}
+	num := func(sb *rsub, i int) uint64 {
+		if i >= len(sb.f) {
+			panic("short race sub-op")
+		}
+		v, err := strconv.ParseUint(sb.f[i], 10, 32)
+		if err != nil {
+			panic("bad number in race sub-op")
+		}
+		return v
+	}
+	// prepare everything in this goroutine (object construction touches shared id tables)
+	var awaitSub *rsub
+	cancelling := map[int]bool{}
+	for _, sb := range subs {
+		switch sb.kind {
+		case "store":
+			if len(sb.f) < 4 || dutyTypes[sb.f[1]] == 0 || sb.f[3] != "a" {
+				panic("bad race store")
+			}
+			sb.ty, sb.slot = sb.f[1], num(sb, 2)
+			for _, t := range sb.f[4:] {
+				en, ok := parseEntry(t)
+				if !ok {
+					panic("bad entry in race store")
+				}
+				sb.entries = append(sb.entries, en)
+			}
+			sb.set, sb.live = buildSet(sb.entries, &sb.log)
+			sb.dstr = fmt.Sprintf("%s/%d", sb.ty, sb.slot)
+		case "await":
+			want := map[string]int{"att": 4, "pro": 3, "agg": 6, "con": 5}[sb.f[1]]
+			if awaitSub != nil || want == 0 || len(sb.f) != want {
+				panic("bad race await")
+			}
+			for i := 2; i < len(sb.f); i++ {
+				num(sb, i)
+			}
+			sb.q, sb.call = e.mkQuery(sb.f)
+			awaitSub = sb
+		case "cancel":
+			id := int(num(sb, 1))
+			if id >= 0 && id < len(e.queries) && e.queries[id].state == 0 && !cancelling[id] {
+				sb.cq = e.queries[id]
+				cancelling[id] = true
+			}
+		case "pubkey":
+			num(sb, 1)
+			num(sb, 2)
+			num(sb, 3)
+		default:
+			panic("bad race sub-op " + sb.kind)
+		}
+	}
+	pre := e.kv
+	e.dl.mu.Lock()
+	adds0 := e.dl.adds
+	e.dl.mu.Unlock()
+	// Expiries queued before the race: the racing Store that gets to its expiry loop first deletes their keys,
+	// possibly between two other racing writes. The monitors cannot see that instant, so for the keys such a
+	// deletion can hit ("deletable") a changed value is read as deleted-and-stored-again.
+	queued := append([]core.Duty(nil), e.queued...)
+	preIdx := map[string]bool{} // "a7:K7.1.2": attester keys indexed under a slot before the race
+	for slot, ks := range e.snap.AttKeysBySlot {
+		for _, k := range ks {
+			preIdx[fmt.Sprintf("a%d:K%d.%d.%d", slot, k.Slot, k.CommIdx, k.ValIdx)] = true
+			preIdx[fmt.Sprintf("a%d:A%d.%d", slot, k.Slot, k.CommIdx)] = true
+		}
+	}
+
+	start := make(chan struct{})
+	for _, sb := range subs {
+		sb := sb
+		switch sb.kind {
+		case "store":
+			go func() {
+				<-start
+				sb.err = e.db.Store(context.Background(), core.Duty{Slot: sb.slot, Type: dutyTypes[sb.ty]}, sb.set)
+				close(sb.done)
+			}()
+		case "await":
+			go func() {
+				<-start
+				v, err := sb.call()
+				sb.q.ch <- qres{v, err}
+			}()
+			close(sb.done) // not joinable: it may block for good
+		case "cancel":
+			go func() {
+				<-start
+				if sb.cq != nil {
+					sb.cq.cancel()
+					sb.cres = <-sb.cq.ch
+				}
+				close(sb.done)
+			}()
+		case "pubkey":
+			go func() {
+				<-start
+				sb.pk, sb.pkErr = e.db.PubKeyByAttestation(context.Background(), num(sb, 1), num(sb, 2), num(sb, 3))
+				close(sb.done)
+			}()
+		}
+	}
+	close(start)
+	for _, sb := range subs {
+		select {
+		case <-sb.done:
+		case <-time.After(waitMax):
+			panic("race sub-operation did not return: " + strings.Join(sb.f, " "))
+		}
+	}
+	// queries whose cancellation raced: they have returned, with a value or with the context error
+	var answered []string
+	type lateAns struct {
+		q   *query
+		val string
+	}
+	var late []lateAns
+	for _, sb := range subs {
+		if sb.kind == "cancel" && sb.cq != nil {
+			if sb.cres.err == nil {
+				sb.cq.state = 1
+				late = append(late, lateAns{sb.cq, sb.cres.val})
+			} else {
+				sb.cq.state = 2
+			}
+		}
+	}
+	// the racing registration: wait until its locked part has run (see doAwait); other blocked queries on
+	// the same key that were answered meanwhile deliver their results, which is what oldStill tracks
+	if awaitSub != nil {
+		q := awaitSub.q
+		deadline := time.Now().Add(waitMax)
+		for spin := 0; ; spin++ {
+			s := e.db.VerifSnapshot()
+			cnt := countPending(s, q.kind, q.hk)
+			oldStill := 0
+			for _, o := range e.queries {
+				if o.state == 0 && o.kind == q.kind && o.key == q.key && len(o.ch) == 0 {
+					oldStill++
+				}
+			}
+			if len(q.ch) > 0 || cnt == oldStill+1 {
+				break
+			}
+			if time.Now().After(deadline) {
+				panic("racing await did not register")
+			}
+			if spin < 50 {
+				runtime.Gosched()
+			} else {
+				time.Sleep(20 * time.Microsecond)
+			}
+		}
+		e.queries = append(e.queries, q)
+	}
+	s := e.db.VerifSnapshot()
+	post := snapKV(s)
+
+	// per-store bookkeeping
+	var stores, okStores []*rsub
+	extra := map[string]map[string]bool{}
+	reachedDrain := false
+	for _, sb := range subs {
+		if sb.kind != "store" {
+			continue
+		}
+		stores = append(stores, sb)
+		sb.ordered, sb.nVisited = orderEntries(sb.entries, sb.log, sb.live)
+		sb.res = errClass(sb.err)
+		sb.supplied = map[string]map[string]bool{}
+		for _, en := range sb.ordered[:sb.nVisited] {
+			for _, w := range en.writes() {
+				if sb.supplied[w.key] == nil {
+					sb.supplied[w.key] = map[string]bool{}
+				}
+				sb.supplied[w.key][w.val] = true
+				if extra[w.key] == nil {
+					extra[w.key] = map[string]bool{}
+				}
+				extra[w.key][w.val] = true
+			}
+		}
+		if sb.err == nil && kindOfTy[sb.ty] != 0 {
+			okStores = append(okStores, sb)
+		}
+		if sb.err == nil || sb.res == "err:unknownDuty" || (sb.res == "err:deprecated" && sb.ty != "bld") {
+			reachedDrain = true
+		}
+	}
+	e.queued = e.queued[len(e.queued)-len(e.dl.ch):]
+	deletable := func(k string) bool {
+		if !reachedDrain {
+			return false
+		}
+		kd := keyDuty(k)
+		for _, d := range queued {
+			ds := ""
+			for name, t := range dutyTypes {
+				if t == d.Type {
+					ds = fmt.Sprintf("%s/%d", name, d.Slot)
+				}
+			}
+			if ds == kd {
+				return true
+			}
+			if d.Type == core.DutyAttester && (k[0] == 'A' || k[0] == 'K') {
+				if preIdx[fmt.Sprintf("a%d:%s", d.Slot, k)] {
+					return true
+				}
+				for _, sb := range stores {
+					for _, en := range sb.ordered[:sb.nVisited] {
+						if en.kind == 'A' && en.f[6] == d.Slot {
+							for _, w := range en.writes() {
+								if w.key == k {
+									return true
+								}
+							}
+						}
+					}
+				}
+			}
+		}
+		return false
+	}
+	bumped := map[string]bool{}
+	bump := func(k string) {
+		e.gen[k]++
+		bumped[k] = true
+		if !e.dutyExpired(keyDuty(k)) {
+			e.foreign[k] = true
+		}
+	}
+	// an answer on a deletable key that differs from what the key answered before: the deletion came in between
+	raceAnswers := map[string]map[string]bool{}
+	raceAnswer := func(key, val string) {
+		if raceAnswers[key] == nil {
+			raceAnswers[key] = map[string]bool{}
+		}
+		raceAnswers[key][val] = true
+		if deletable(key) {
+			for _, p := range e.answers[key] {
+				if p.gen == e.gen[key] && p.val != val {
+					bump(key)
+					break
+				}
+			}
+		}
+		e.recordAnswer(run, key, val, extra)
+	}
+	// which racing store a (key, value) is attributed to
+	supplier := func(k, v string) string {
+		var cands []string
+		for _, sb := range stores {
+			if sb.supplied[k][v] {
+				cands = append(cands, sb.dstr)
+			}
+		}
+		if len(cands) == 0 {
+			return ""
+		}
+		kd := keyDuty(k)
+		if e.dutyExpired(kd) {
+			for _, c := range cands {
+				if c != kd {
+					return c
+				}
+			}
+		}
+		return cands[0]
+	}
+
+	// --- monitors, evaluated after all goroutines returned
+	e.dl.mu.Lock()
+	nadds := e.dl.adds - adds0
+	e.dl.mu.Unlock()
+	if nadds != len(stores) {
+		run.Violate("dutydb:deadliner_add_calls", fmt.Sprintf("%d racing Stores called deadliner.Add %d times", len(stores), nadds))
+	}
+	for _, sb := range stores {
+		if e.dl.expired[core.Duty{Slot: sb.slot, Type: dutyTypes[sb.ty]}] && sb.res != "err:expired" {
+			run.Violate("dutydb:expired_store_accepted", fmt.Sprintf("racing Store for expired duty %s returned %s", sb.dstr, sb.res))
+		}
+	}
+	if len(okStores) > 0 {
+		free, why := false, ""
+		for _, p := range permsOf(okStores) {
+			ok, d := conflictFree(pre, p, deletable)
+			if ok {
+				free = true
+				break
+			}
+			why = d
+		}
+		if !free {
+			run.Violate("dutydb:conflict_accepted", "racing Stores all returned ok although in every order one of them stores conflicting data: "+why)
+		}
+	}
+	for k, v := range post {
+		old, was := pre[k]
+		if was && old != v && deletable(k) { // deleted by a queued expiry and stored again inside the race
+			was = false
+		}
+		switch {
+		case was && old != v && k[0] == 'G':
+			run.Violate("dutydb:agg_replaced_same_root", fmt.Sprintf("racing Store replaced %s=%s by %s (same data root, other aggregation bits/signature)", k, old, v))
+		case was && old != v:
+			run.Violate("dutydb:value_replaced", fmt.Sprintf("racing Store replaced %s=%s by %s", k, old, v))
+		case !was:
+			d := supplier(k, v)
+			if d == "" {
+				run.Violate("dutydb:answer_not_stored", fmt.Sprintf("key %s=%s appeared during a race although no racing Store supplies it", k, v))
+			} else {
+				e.writer[k] = d
+			}
+			if kd := keyDuty(k); e.dutyExpired(kd) {
+				if kd == d {
+					run.Violate("dutydb:expired_store_accepted", fmt.Sprintf("racing Store %s inserted %s although the duty is expired", d, k))
+				} else {
+					run.Violate("dutydb:expired_duty_data_stored_cross_slot", fmt.Sprintf("racing Store under duty %s inserted %s=%s, which belongs to the expired duty %s", d, k, v, kd))
+				}
+			}
+		}
+		if e.seen[k] == nil {
+			e.seen[k] = map[string]bool{}
+		}
+		e.seen[k][v] = true
+	}
+	for k, vs := range extra {
+		if _, was := pre[k]; !was {
+			if _, is := post[k]; !is { // possibly inserted and deleted again inside the race
+				for v := range vs {
+					if d := supplier(k, v); d != "" {
+						e.writer[k] = d
+					}
+				}
+			}
+		}
+	}
+	// answers
+	e.kv, e.snap = mergeForAnswers(pre, post), s
+	for _, la := range late {
+		raceAnswer(la.q.key, la.val)
+		answered = append(answered, fmt.Sprintf("%09d q%d=%s", la.q.id, la.q.id, la.val))
+	}
+	answered = append(answered, e.collectRace(run, s, raceAnswer)...)
+	for _, sb := range subs {
+		if sb.kind == "pubkey" && sb.pkErr == nil {
+			raceAnswer(fmt.Sprintf("K%d.%d.%d", num(sb, 1), num(sb, 2), num(sb, 3)), "k("+pkID(sb.pk)+")")
+		}
+	}
+	sort.Strings(answered)
+	for i := range answered {
+		answered[i] = answered[i][10:]
+	}
+	r := "r[" + strings.Join(answered, ",") + "]"
+	e.kv = post
+	// generations
+	gone := map[string]bool{}
+	for k := range pre {
+		if _, ok := post[k]; !ok {
+			gone[k] = true
+		}
+	}
+	if reachedDrain {
+		for k := range extra {
+			if _, ok := post[k]; !ok {
+				gone[k] = true
+			}
+		}
+	}
+	for k, v := range post {
+		if old, was := pre[k]; was && old != v && deletable(k) && !bumped[k] {
+			gone[k] = true
+		}
+	}
+	// answered inside the race with a value that is not the final one: deleted and stored again after the answer
+	for k, vals := range raceAnswers {
+		if v, ok := post[k]; ok && deletable(k) && !bumped[k] {
+			for val := range vals {
+				if val != v {
+					gone[k] = true
+				}
+			}
+		}
+	}
+	for k := range gone {
+		bump(k)
+	}
+	// prompt: a resolve of kind K ran (successful Store of that kind, or the registration) — no blocked query of
+	// kind K may have its key present, unless a racing Store that FAILED supplies that key (it writes without resolving)
+	resolvedKinds := map[byte]string{}
+	for _, sb := range okStores {
+		resolvedKinds[kindOfTy[sb.ty]] = "racing successful Store " + sb.dstr
+	}
+	if awaitSub != nil {
+		if _, ok := resolvedKinds[awaitSub.q.kind]; !ok {
+			resolvedKinds[awaitSub.q.kind] = "racing Await registration on " + awaitSub.q.key
+		}
+	}
+	for _, q := range e.queries {
+		after, ok := resolvedKinds[q.kind]
+		if q.state != 0 || !ok {
+			continue
+		}
+		v, present := post[q.key]
+		if !present {
+			continue
+		}
+		excused := false
+		for _, sb := range stores {
+			if sb.err != nil && sb.supplied[q.key] != nil {
+				excused = true
+			}
+		}
+		if !excused {
+			run.Violate("dutydb:query_not_prompt", fmt.Sprintf("query q%d still blocked after %s returned although key %s is present (%s)", q.id, after, q.key, v))
+		}
+	}
+
+	// line and output
+	var lines, results []string
+	shape := ""
+	for _, sb := range subs {
+		switch sb.kind {
+		case "store":
+			toks := make([]string, len(sb.ordered))
+			for i, en := range sb.ordered {
+				toks[i] = en.token()
+			}
+			lines = append(lines, strings.TrimSpace(fmt.Sprintf("store %s %d a %s", sb.ty, sb.slot, strings.Join(toks, " "))))
+			results = append(results, sb.res)
+			run.Count("race:store:" + sb.res)
+		case "await":
+			lines = append(lines, strings.Join(sb.f, " "))
+			results = append(results, fmt.Sprintf("q%d", sb.q.id))
+			if sb.q.state == 1 {
+				run.Count("race:await:answered")
+			} else {
+				run.Count("race:await:blocked")
+			}
+		case "cancel":
+			lines = append(lines, strings.Join(sb.f, " "))
+			results = append(results, "-")
+			switch {
+			case sb.cq == nil:
+				run.Count("race:cancel:noop")
+			case sb.cres.err == nil:
+				run.Count("race:cancel:lost_to_answer")
+			default:
+				run.Count("race:cancel:cancelled")
+			}
+		case "pubkey":
+			lines = append(lines, strings.Join(sb.f, " "))
+			if sb.pkErr != nil {
+				if strings.Contains(sb.pkErr.Error(), "pubkey not found") {
+					results = append(results, "notfound")
+				} else {
+					results = append(results, errClass(sb.pkErr))
+				}
+			} else {
+				results = append(results, "found:k("+pkID(sb.pk)+")")
+			}
+			run.Count("race:pubkey")
+		}
+		shape += sb.kind[:1]
+	}
+	observed := strings.Join(results, " ") + " " + r + " " + snapStr(s, post)
+	run.Count("race:" + shape)
+	if r != "r[]" {
+		run.Count("race:resolved_some")
+	}
+	run.Case("race:" + shape + ":" + strings.Join(results, ","))
+	return "race " + strings.Join(lines, " ; ") + " => " + observed, "lin " + observed
 }
 
 // ---------------------------------------------------------------- main / generator
@@ -1101,6 +1811,9 @@ func main() {
 			run.Op(op, ep.doExpire(run, f[1], n(2), n(3) == 1))
 		case "pubkey":
 			run.Op(op, ep.doPubkey(run, n(1), n(2), n(3)))
+		case "race":
+			line, out := ep.doRace(run, f)
+			run.Op(line, out)
 		default:
 			panic("bad op " + op)
 		}
@@ -1210,7 +1923,7 @@ func main() {
 		nops := 25 + rng.Intn(50)
 		for k := 0; k < nops && run.NOps < a.N; k++ {
 			switch c := rng.Intn(100); {
-			case c < 42: // store
+			case c < 36: // store
 				ty := []string{"att", "att", "att", "att", "pro", "pro", "agg", "agg", "agg", "con", "con", "con"}[rng.Intn(12)]
 				if rng.Chance(1, 25) {
 					ty = []string{"bld", "oth"}[rng.Intn(2)]
@@ -1274,7 +1987,7 @@ func main() {
 					}
 				}
 				exec(strings.TrimSpace(fmt.Sprintf("store %s %d %s %s", ty, dslot, st, strings.Join(toks, " "))))
-			case c < 68: // await
+			case c < 58: // await
 				var f []string
 				for tries := 0; tries < 8 && len(keys) > 0 && f == nil && rng.Chance(4, 5); tries++ {
 					f = keys[rng.Intn(len(keys))]
@@ -1300,7 +2013,7 @@ func main() {
 					}
 				}
 				exec("await " + strings.Join(f, " "))
-			case c < 76: // cancel
+			case c < 64: // cancel
 				var blocked []int
 				for _, q := range ep.queries {
 					if q.state == 0 {
@@ -1312,7 +2025,7 @@ func main() {
 				} else {
 					exec(fmt.Sprintf("cancel %d", rng.Intn(len(ep.queries)+2)))
 				}
-			case c < 83: // expire
+			case c < 70: // expire
 				ty := []string{"att", "pro", "agg", "con"}[rng.Intn(4)]
 				if rng.Chance(1, 25) {
 					ty = []string{"bld", "oth"}[rng.Intn(2)]
@@ -1324,6 +2037,158 @@ func main() {
 				}
 				expiredOf[ty] = append(expiredOf[ty], s)
 				exec(fmt.Sprintf("expire %s %d %d", ty, s, notify))
+			case c < 86: // race: 2-3 calls released together on overlapping keys
+				ty := []string{"att", "att", "att", "pro", "agg", "con", "con"}[rng.Intn(7)]
+				live := func() uint64 { // a slot whose duty of this type has not expired, if there is one
+					for tries := 0; tries < 6; tries++ {
+						s := pick(sl)
+						if !ep.dl.expired[core.Duty{Slot: s, Type: dutyTypes[ty]}] {
+							return s
+						}
+					}
+					return pick(sl)
+				}
+				dslot := live()
+				if rng.Chance(1, 3) { // a Store that carries an expiry: queue one first
+					xs := pick(sl)
+					xty := ty
+					if rng.Chance(1, 3) {
+						xty = []string{"att", "pro", "agg", "con"}[rng.Intn(4)]
+					}
+					if xs != dslot || xty != ty || rng.Chance(1, 4) {
+						expiredOf[xty] = append(expiredOf[xty], xs)
+						exec(fmt.Sprintf("expire %s %d 1", xty, xs))
+					}
+				}
+				base := genEntry(entryKind[ty], dslot, ty)
+				var same []entry
+				for _, p := range pool {
+					if p.kind == base.kind {
+						same = append(same, p)
+					}
+				}
+				if len(same) > 0 && rng.Chance(1, 3) {
+					base = same[rng.Intn(len(same))]
+					if rng.Chance(1, 2) {
+						base = mutate(base)
+					}
+				}
+				variant := func() entry {
+					switch rng.Intn(10) {
+					case 0, 1, 2:
+						return base
+					case 3, 4, 5, 6:
+						return mutate(base)
+					default:
+						return genEntry(entryKind[ty], dslot, ty)
+					}
+				}
+				mkStore := func(first bool) string {
+					en := base
+					slot := dslot
+					if !first {
+						en = variant()
+						if rng.Chance(1, 3) {
+							slot = live()
+						}
+					}
+					es := []entry{en}
+					if rng.Chance(1, 3) {
+						o := variant()
+						if !(o.kind == 'A' && o.f[0] == en.f[0]) {
+							es = append(es, o)
+						}
+					}
+					if ty == "pro" && len(es) > 1 && rng.Chance(3, 4) {
+						es = es[:1]
+					}
+					toks := make([]string, len(es))
+					for i, x := range es {
+						toks[i] = x.token()
+						pool = append(pool, x)
+						for _, w := range x.writes() {
+							keys = append(keys, keyOp(w.key))
+						}
+					}
+					return strings.TrimSpace(fmt.Sprintf("store %s %d a %s", ty, slot, strings.Join(toks, " ")))
+				}
+				bws := base.writes()
+				// queries already blocked on what the race is going to store
+				if len(bws) > 0 && rng.Chance(1, 2) {
+					for j := 0; j < 1+rng.Intn(2); j++ {
+						if fk := keyOp(bws[rng.Intn(len(bws))].key); fk[0] != "pubkey" && run.NOps < a.N {
+							exec("await " + strings.Join(fk, " "))
+						}
+					}
+				}
+				subsOps := []string{mkStore(true)}
+				haveAwait := false
+				nsub := 2 + rng.Intn(2)
+				for len(subsOps) < nsub {
+					switch r := rng.Intn(20); {
+					case r < 8:
+						subsOps = append(subsOps, mkStore(false))
+					case r < 13 && !haveAwait && len(bws) > 0:
+						fk := keyOp(bws[rng.Intn(len(bws))].key)
+						if fk[0] == "pubkey" || rng.Chance(1, 6) {
+							fk = []string{"att", fmt.Sprint(pick(sl)), fmt.Sprint(rng.Intn(3))}
+						}
+						subsOps = append(subsOps, "await "+strings.Join(fk, " "))
+						haveAwait = true
+					case r < 17:
+						var blocked, onKey []int
+						for _, q := range ep.queries {
+							if q.state == 0 {
+								blocked = append(blocked, q.id)
+								for _, w := range bws {
+									if w.key == q.key {
+										onKey = append(onKey, q.id)
+									}
+								}
+							}
+						}
+						already := func(id int) bool {
+							for _, so := range subsOps {
+								if so == fmt.Sprintf("cancel %d", id) {
+									return true
+								}
+							}
+							return false
+						}
+						switch {
+						case len(onKey) > 0 && rng.Chance(3, 4) && !already(onKey[0]):
+							subsOps = append(subsOps, fmt.Sprintf("cancel %d", onKey[rng.Intn(len(onKey))]))
+						case len(blocked) > 0 && !already(blocked[0]):
+							subsOps = append(subsOps, fmt.Sprintf("cancel %d", blocked[rng.Intn(len(blocked))]))
+						default:
+							subsOps = append(subsOps, mkStore(false))
+						}
+					default:
+						var pk []string
+						for _, w := range bws {
+							if w.key[0] == 'K' {
+								pk = keyOp(w.key)
+							}
+						}
+						if pk == nil {
+							pk = []string{"pubkey", fmt.Sprint(pick(sl)), fmt.Sprint(rng.Intn(3)), fmt.Sprint(1 + rng.Intn(3))}
+						}
+						subsOps = append(subsOps, strings.Join(pk, " "))
+					}
+				}
+				// duplicate cancels of one query would make the second a no-op in the harness only
+				seenC := map[string]bool{}
+				var final []string
+				for _, so := range subsOps {
+					if strings.HasPrefix(so, "cancel ") {
+						if seenC[so] {
+							continue
+						}
+						seenC[so] = true
+					}
+					final = append(final, so)
+				}
+				exec("race " + strings.Join(final, " ; "))
 			default: // pubkey
 				var f []string
 				for tries := 0; tries < 8 && len(keys) > 0 && f == nil && rng.Chance(4, 5); tries++ {
